@@ -199,6 +199,10 @@ def run(ctx):
                 key = "odpor-random-with-created-actor-spurious-crash"
             elif res["rc"] == 134 and red == "udpor":
                 key = "udpor-abort"
+            elif res["rc"] == 134 and red in ("sdpor", "odpor") and "W" in f["ops"] and ("N" in f["ops"] or "Y" in f["ops"]):
+                key = "sdpor-odpor-condvar-abort-lock-handle"
+            elif res["rc"] == 134 and red in ("sdpor", "odpor") and "B" in f["ops"]:
+                key = "sdpor-odpor-barrier-abort-actor-minus-one"
             ctx.cov["evaluations"] += 1
             ctx.violation("simgrid-mc reports exit code %d on a program that neither crashes nor aborts in the "
                           "reference semantics" % res["rc"], case, key=key)
